@@ -8,7 +8,7 @@ from harness.batt import F
 PID = "C03"
 GEN_GROUPS = ["Battery", "BatteryGuard", "Evse"]
 TARGETS = ["coq/Props/C03.vo", "coq/Model/Battery.vo", "coq/Model/BatteryStation.vo"]
-CASES = {"quick": 700, "thorough": 20000}
+CASES = {"quick": 700, "thorough": 12000}
 CORR_HEADER = batt.CORR_HEADER
 CHECK_FN = "check_batt"
 SHARD = 120
@@ -204,7 +204,7 @@ def build_sim(inp):
 
 
 def extra_streams(rng, tier):
-    return [("sim", batt_sim.HEADER, batt_sim.CHECK_FN, sim_cases(rng, 40 if tier == "quick" else 600)),
+    return [("sim", batt_sim.HEADER, batt_sim.CHECK_FN, sim_cases(rng, 40 if tier == "quick" else 400)),
             ("qexp", CORR_HEADER, "check_qexp", batt.qexp_cases(rng, 60 if tier == "quick" else 600))]
 
 
